@@ -17,7 +17,7 @@ CLAIMED = {
 CLAIMED['C11'] = dict(
     engine='E2+E1',
     text='SMT validity plus bounded model checking. E2: TokenCategoryHierarchyMapper.valid and _match are translated from their current source to 37-bit bit-vector terms (nodes() evaluated on the live hierarchy) and the closure algebra of the documented README tree is proved for ALL 2^37 x 2^37 include/exclude pairs (41 unsat queries, None defaults as extra cases). '
-         'E1: the forest/parent map, is_child on all 37x37 pairs, children/nodes/leaves on all members, every argument shape (list/tuple/set/single/None) and rejection of foreign members are decided by exhaustive symbolic execution over selector indices.',
+         'E1: the forest/parent map, is_child on all 37x37 pairs, children/nodes/leaves on all members, every argument shape (list/tuple/set/single/None) and rejection of foreign members are decided by exhaustive symbolic execution over selector indices; all C(37,3) three-member sets on either side in every container type, and containers changed in place by the caller between two calls (C11.i).',
     note=NOTE + 'The documented tree is the one printed in /repo/README.md (parsed at run time). E2 treats _validate_include/_validate_exclude as the identity on sets; their argument handling is decided separately by C11.d/C11.f.',
     technique='AST->z3 bit-vector translation of valid/_match (unsat for all sets) + CrossHair-engine symbolic execution over category indices',
     design='5 C11')
@@ -43,7 +43,7 @@ CLAIMED['C19'] = dict(
     design='5 C19')
 
 CLAIMED['C02'] = dict(
-    text=BMC + 'C02: (a) every spine-operator layout inside the depth bound (solver-enumerated selector over the layouts generated by the reference spine-path model) is imported by the real importers and the tree is compared cell by cell with the model (stages, order, parent cell, header, spine id); (d) Importer.run is executed on SYMBOLIC data-cell strings behind a stubbed spine importer, showing that structure never depends on cell text; (b) the csv line reader on every string over a quote/comma/space/backslash/non-ASCII alphabet (realised at the C boundary); (c) surplus cells rejected.',
+    text=BMC + 'C02: (a) every spine-operator layout inside the depth bound (solver-enumerated selector over the layouts generated by the reference spine-path model) is imported by the real importers and the tree is compared cell by cell with the model (stages, order, parent cell, header, spine id); (d) Importer.run is executed on SYMBOLIC data-cell strings behind a stubbed spine importer, showing that structure never depends on cell text; (b) the csv line reader on every string over a quote/comma/space/backslash/non-ASCII alphabet (realised at the C boundary); (c) surplus cells rejected; (e) texts of 40 / 150 / 400 lines in which none, every third or every **kern cell is rejected by the parser, with invisible barlines and a split / join: stages, nodes, parents and the token listing.',
     note=NOTE + 'csv.reader is a C boundary: C02.b is an enumeration of realised strings, labelled so. Global comments inside spines, *+ and *x, several header rows are outside the claim.',
     technique='CrossHair-engine symbolic execution of Importer.run (symbolic cell strings, stub spine importer) + z3-enumerated layout/string selectors against a reference spine-path model',
     design='5 C02')
@@ -91,8 +91,8 @@ CLAIMED['C12'] = dict(
     design='5 C12')
 
 CLAIMED['C17'] = dict(
-    text=BMC + 'C17: (c) get_metacomments is executed with a SYMBOLIC key string (z3 explores every prefix relation with the comment lines); (a) the token listing of every spine-operator layout inside the C02 bounds (plus 12 curated deep layouts) x 7 global-comment plans is compared with the order derived from the reference spine-path model; (b) category-filtered listings, unique listings, encodings and frequencies for None, every single category and every pair in three argument shapes on 7 documents (one with the same text under different categories) against the closure of the documented tree; (d) is_monophonic on documents toggling each conjunct.',
-    note=NOTE + 'Filters of more than two categories rely on C11.c (closure algebra for arbitrary sets).',
+    text=BMC + 'C17: (c) get_metacomments is executed with a SYMBOLIC key string (z3 explores every prefix relation with the comment lines); (a) the token listing of every spine-operator layout inside the C02 bounds (plus 12 curated deep layouts) x 7 global-comment plans is compared with the order derived from the reference spine-path model; (b) category-filtered listings, unique listings, encodings and frequencies for None, every single category and every pair in three argument shapes on 7 documents (one with the same text under different categories) against the closure of the documented tree; (d) is_monophonic on documents toggling each conjunct, with the chord or the only note in the unsplit part, the left or the right sub-spine of a split, cross-checked with the CHORD listing.',
+    note=NOTE + 'Filters of more than two categories rely on C11.c (closure algebra for arbitrary sets) and C11.i (all sets of three).',
     technique='CrossHair-engine symbolic execution of get_metacomments on a symbolic key + z3-enumerated layouts / filter selections through the real traversal code against spine-path and category-tree models',
     design='5 C17')
 
@@ -111,7 +111,7 @@ CLAIMED['C15'] = dict(
     design='5 C15')
 
 CLAIMED['C13'] = dict(
-    text=BMC + 'C13: (a) Exporter.export_string is executed with SYMBOLIC spine-id bits (or None), spine-type bits and category bits at once under each of the six encodings, on documents with three spines, a chord, a split with a clef change and a join; the export must equal the cell model rendered under (encoding, category predicate, column predicate) - the three single-option transformations act on independent components of that state, so their composition is order independent by construction; (b) every keyword passed as None or as its documented default equals omitting it, alone and next to one other non-default option, in both call orders; (c) the text exported for a cell is independent of its neighbours for every encoding and four exclusions.',
+    text=BMC + 'C13: (a) Exporter.export_string is executed with SYMBOLIC spine-id bits (or None), spine-type bits and category bits at once under each of the six encodings, on documents with three spines, a chord, a split with a clef change and a join; the export must equal the cell model rendered under (encoding, category predicate, column predicate) - the three single-option transformations act on independent components of that state, so their composition is order independent by construction; (b) every keyword passed as None or as its documented default equals omitting it, alone and next to one other non-default option, in both call orders; (c) the text exported for a cell is independent of its neighbours for every encoding and four exclusions; (e) the public keyword route kp.dumps(spine_ids, spine_types, include, exclude, encoding) for 12 id selections (empty, unordered, tuple, None) x 9 type selections x 8 category selections x 6 encodings against the same cell model; the pool document holds an invisible barline.',
     note=NOTE + 'In C13.a six categories vary and the rest are selected (all 2^37 selections per document are C05.a); from/to_measure combinations are C07/C08.',
     technique='CrossHair-engine symbolic execution of the exporter with symbolic spine-id / spine-type / category containers x z3-enumerated encodings against a state-based cell model',
     design='5 C13')
@@ -129,7 +129,7 @@ CLAIMED['C08'] = dict(
     design='5 C08')
 
 CLAIMED['C20'] = dict(
-    text=BMC + 'C20 (partial, as designed): (a) get_kern_from_ekern is executed on SYMBOLIC text (with and without a pinned **ekern header line) against a character-loop specification; (b-e) file and command-line behaviour is realised at the I/O boundary on real temporary files, with solver-enumerated selectors: load(file) vs loads(text) by deep structural snapshot for LF / CRLF, with / without final newline, non-ASCII cells, str and Path; dump vs dumps for 5 option sets and 0-3 missing directory levels; the command line (python -m kernpy, a fresh interpreter per invocation) for --kern2ekern (single file, explicit output, directory, recursive, plus three kp.kern_to_ekern calls in one interpreter; .krn / .kern; every order of three scores with 1 / 3 / 2 kern spines) and --ekern2kern (.ekrn / .ekern, recursive or not) compared with what the API produces, plus the ekern -> kern -> ekern round trip.',
+    text=BMC + 'C20 (partial, as designed): (a) get_kern_from_ekern is executed on SYMBOLIC text (with and without a pinned **ekern header line) against a character-loop specification; (b-e) file and command-line behaviour is realised at the I/O boundary on real temporary files, with solver-enumerated selectors: load(file) vs loads(text) by deep structural snapshot for LF / CRLF, with / without final newline, non-ASCII cells, str and Path; multi-byte characters lying across byte offsets 512 .. 65536 (read-buffer boundaries); dump vs dumps for 5 option sets and 0-3 missing directory levels; the command line (python -m kernpy, a fresh interpreter per invocation) for --kern2ekern (single file, explicit output, directory, recursive, plus three kp.kern_to_ekern calls in one interpreter; .krn / .kern; every order of three scores with 1 / 3 / 2 kern spines) and --ekern2kern (.ekrn / .ekern, recursive or not) compared with what the API produces, plus the ekern -> kern -> ekern round trip.',
     note=NOTE + 'open()/csv on arbitrary bytes, locale-dependent default encodings, process spawning and permissions are out of reach of symbolic execution and outside the claim; the file tier is an enumeration of realised cases, labelled so.',
     technique='CrossHair-engine symbolic execution of get_kern_from_ekern on symbolic strings + z3-enumerated file / command-line scenarios realised at the I/O boundary and compared with the in-memory API',
     design='5 C20')
